@@ -323,6 +323,30 @@ fn hostile_compressed(kind: u64, plain: &[u8], par: refmla::Params, level: u32, 
             c[n - 4..].copy_from_slice(&v.to_le_bytes());
             (c, "sizes-length-field")
         }
+        6 => {
+            // tens of thousands of EMPTY brotli streams in a row (one byte each: 0x06 = window 16, last, empty; also 0x3b),
+            // after the first valid block or alone; the sizes table declares one block per stream. A decoder loop that
+            // handles "stream ended, nothing produced, input left" by calling itself goes as deep as the run is long.
+            let nrep = *rng.pick(&[5_000usize, 60_000, 150_000]);
+            let byte = *rng.pick(&[0x06u8, 0x06, 0x3b]);
+            let keep_first = rng.chance(1, 2);
+            let fields = comp_fields(&c);
+            let first_sz = fields.iter().find(|f| f.2 == "sizes-entry").map(|f| u32::from_le_bytes(c[f.0..f.0 + 4].try_into().unwrap()) as usize).unwrap_or(0).min(n);
+            let mut out: Vec<u8> = if keep_first { c[..first_sz].to_vec() } else { Vec::new() };
+            let lead = usize::from(keep_first && first_sz > 0);
+            out.extend(std::iter::repeat(byte).take(nrep));
+            let count = lead + nrep;
+            out.extend_from_slice(&(count as u64).to_le_bytes());
+            if lead == 1 {
+                out.extend_from_slice(&(first_sz as u32).to_le_bytes());
+            }
+            for _ in 0..nrep {
+                out.extend_from_slice(&1u32.to_le_bytes());
+            }
+            out.extend_from_slice(&0u32.to_le_bytes());
+            out.extend_from_slice(&((8 + 4 * count + 4) as u32).to_le_bytes());
+            (out, "many-empty-brotli-streams")
+        }
         5 => {
             // a well-formed brotli stream announcing the "large window" extension with 30 window bits and a
             // first, non-last, uncompressed metablock of 16 bytes: the decoder sizes its ring buffer 1 GiB
@@ -398,7 +422,7 @@ impl Prop for C08 {
         "fault_enumeration"
     }
     fn rule(&self) -> String {
-        "run = a hostile image derived from a seeded valid archive (all layer sets) by k <= 3 structured faults placed at any of the three layers of the stack: (stored) cut, bit flip, byte substitution, integer-field overwrite with boundary values, encrypted-chunk swap/duplicate/delete/splice, garbage tail, raw PRNG bytes; (inner) the decrypted/decompressed file-layer stream or the compressed stream is mutated on its parsed fields (block type/id/length, every index field, size-table fields: values 0,1,len-1,len,len+1,2^31,2^32-1,2^63,2^64-1... and PAIRS of related fields changed together so that their sum is kept (an entry of the sizes table emptied into its neighbour, +-1 moved between two neighbours, two values swapped); values DERIVED from the position arithmetic of the layers: the largest plaintext position whose position-with-tags fits in 64 bits, +-1, quotients/multiples of CHUNK, CHUNK+16 and BLOCK near 2^64), spans duplicated/deleted/moved, or replaced by a hand-built hostile stream (thousands of index offsets pointing at a foreign block, index offsets at the edge of what the layers' position arithmetic can represent, empty/out-of-range offset lists, degenerate and reused blocks, huge announced lengths, 512 MiB length prefixes, broken length fields, empty size table, last_block_size > BLOCK, huge compressed sizes, block longer than declared, brotli large-window header asking for a 1 GiB ring buffer) and then re-wrapped by the format model's foreign writer through compression and VALID encryption for the reader's key; the first 3000 quick runs enumerate, on s0 without layers, every single bit flip and every cut of one small archive's stored bytes. Then an operation history that continues after errors: open, list, open+read each listed and each original name with seeded buffers, read after errors, hashes, linear extraction (all / subset), repair in both modes, layer-level seeks (also beyond the end) and reads on a stack that already failed, drop. Oracle per operation: returns Ok or Err - no panic (overflow checks on), the worker process survives (stack overflow, abort), at most 200*len+50000 seam calls, peak live heap above the start of the operation <= 48 MiB + 16*len(image); a single request >= 1 GiB aborts the worker and is reported. evaluations = operations judged; distinct_nontrivial = distinct (variant, layers, fault placement, mutation kinds, operation, outcome class) signatures.".into()
+        "run = a hostile image derived from a seeded valid archive (all layer sets) by k <= 3 structured faults placed at any of the three layers of the stack: (stored) cut, bit flip, byte substitution, integer-field overwrite with boundary values, encrypted-chunk swap/duplicate/delete/splice, garbage tail, raw PRNG bytes; (inner) the decrypted/decompressed file-layer stream or the compressed stream is mutated on its parsed fields (block type/id/length, every index field, size-table fields: values 0,1,len-1,len,len+1,2^31,2^32-1,2^63,2^64-1... and PAIRS of related fields changed together so that their sum is kept (an entry of the sizes table emptied into its neighbour, +-1 moved between two neighbours, two values swapped); values DERIVED from the position arithmetic of the layers: the largest plaintext position whose position-with-tags fits in 64 bits, +-1, quotients/multiples of CHUNK, CHUNK+16 and BLOCK near 2^64), spans duplicated/deleted/moved, or replaced by a hand-built hostile stream (thousands of index offsets pointing at a foreign block, index offsets at the edge of what the layers' position arithmetic can represent, empty/out-of-range offset lists, degenerate and reused blocks, huge announced lengths, 512 MiB length prefixes, broken length fields, empty size table, last_block_size > BLOCK, huge compressed sizes, block longer than declared, brotli large-window header asking for a 1 GiB ring buffer, tens of thousands of empty one-byte brotli streams in a row) and then re-wrapped by the format model's foreign writer through compression and VALID encryption for the reader's key; the first 3000 quick runs enumerate, on s0 without layers, every single bit flip and every cut of one small archive's stored bytes. Then an operation history that continues after errors: open, list, open+read each listed and each original name with seeded buffers, read after errors, hashes, linear extraction (all / subset), repair in both modes, layer-level seeks (also beyond the end) and reads on a stack that already failed, drop. Oracle per operation: returns Ok or Err - no panic (overflow checks on), the worker process survives (stack overflow, abort), at most 200*len+50000 seam calls, peak live heap above the start of the operation <= 48 MiB + 16*len(image); a single request >= 1 GiB aborts the worker and is reported. evaluations = operations judged; distinct_nontrivial = distinct (variant, layers, fault placement, mutation kinds, operation, outcome class) signatures.".into()
     }
     fn assumptions(&self) -> Vec<String> {
         vec![
